@@ -47,7 +47,8 @@ LEVEL_TEXT = (
     "floor, the energy coefficient) is regenerated from compute.py on every run and proved to be the documented formula: "
     "stft_coefficient_spec - for every DFT size, support, real frame, bank taps and every way the walk is cut into "
     "segments the stored coefficient is logFloor((2 if real) * sum over the FULL spectrum of |X[b]*H[b]|^p) with X the "
-    "documented DFT (Hermitian symmetry of a real frame's DFT proved, not assumed). Model tied to the code by "
+    "documented DFT (Hermitian symmetry of a real frame's DFT proved, not assumed); the DFT size rule of the constructor "
+    "is regenerated too and proved to be the least power of two >= the frame length (DftSizeTie). Model tied to the code by "
     "exact-integer tracers through the public API; coefficient values on library banks checked against an independent "
     "full-spectrum oracle."
 )
